@@ -63,10 +63,62 @@ def adjacency(ra, dec, linklength):
     return rows, near
 
 
+def laid(values, dtype, layout):
+    """a 1-D coordinate array holding `values` with the requested memory layout / byte order (round 6, class B)"""
+    dt = np.dtype(dtype)
+    n = len(values)
+    if layout in (None, 'contig'):
+        return np.array(values, dtype=dt)
+    if layout == 'strided':                      # every other element of a buffer whose other elements are junk
+        buf = np.full(2 * n + 1, 77, dtype=dt)
+        buf[1::2] = values
+        return buf[1::2]
+    if layout == 'reversed':                     # negative stride
+        return np.array(list(values)[::-1], dtype=dt)[::-1]
+    if layout == 'col2d':                        # a column of a C-ordered 2-D table (catalogue[:, k])
+        m = np.full((n, 3), 55, dtype=dt)
+        m[:, 1] = values
+        return m[:, 1]
+    if layout == 'fortran-row':                  # a row of a Fortran-ordered table
+        m = np.asfortranarray(np.full((2, n), 33, dtype=dt))
+        m[1, :] = values
+        return m[1, :]
+    if layout == 'bigendian':
+        return np.array(values, dtype=dt.newbyteorder('>'))
+    if layout == 'readonly':
+        a = np.array(values, dtype=dt)
+        a.flags.writeable = False
+        return a
+    raise ValueError('unknown layout %r' % (layout,))
+
+
+def scalar(v, kind):
+    """linklength / chunksize in the Python / NumPy type the case asks for (class E)"""
+    if kind in (None, 'float', 'explicit-None'):     # (explicit-None: limit_cost replaced the None by a number)
+        return float(v)
+    if kind == 'int':
+        return int(v)
+    if kind == '0-d-float':
+        return np.array(float(v))
+    return getattr(np, kind)(v)                  # float64, float32, int64, int32 ...
+
+
 def typed(c):
-    """coordinate arrays with the dtypes the case asks for (default float64); whole-degree values for integer dtypes"""
+    """coordinate arrays with the dtypes and memory layouts the case asks for (default float64, contiguous); whole-degree
+    values for integer dtypes"""
     dt = c.get('dtype') or {}
-    return np.array(c['ra'], dtype=dt.get('ra', 'd')), np.array(c['dec'], dtype=dt.get('dec', 'd'))
+    lay = c.get('layout') or {}
+    return laid(c['ra'], dt.get('ra', 'd'), lay.get('ra')), laid(c['dec'], dt.get('dec', 'd'), lay.get('dec'))
+
+
+def call_args(c):
+    at = c.get('argtypes') or {}
+    kw = {}
+    if c.get('chunksize') is not None:
+        kw['chunksize'] = scalar(c['chunksize'], at.get('chunksize'))
+    elif at.get('chunksize') == 'explicit-None':
+        kw['chunksize'] = None
+    return scalar(c['linklength'], at.get('linklength')), kw
 
 
 def one(c):
@@ -78,15 +130,13 @@ def one(c):
     irows, near = indep_adjacency(ra, dec, float(c['linklength']), rows)
     out = {'adj': [str(r) for r in rows], 'adj_indep': [str(r) for r in irows], 'nearest_threshold_rel': near,
            'nearest_threshold_rel_impl': near_impl}
-    kw = {}
-    if c.get('chunksize') is not None:
-        kw['chunksize'] = float(c['chunksize'])
+    ll, kw = call_args(c)
     REC.clear()
     SG.chunks = RecChunks
     try:
         with warnings.catch_warnings(record=True) as w:
             warnings.simplefilter('always')
-            r = SG.spheregroup(ra, dec, float(c['linklength']), **kw)
+            r = SG.spheregroup(ra, dec, ll, **kw)
         out['ok'] = [[int(x) for x in a] for a in r]
         out['warnings'] = [str(x.message)[:80] for x in w]
     except Exception as e:  # noqa: BLE001 -- the error class is the observation
@@ -174,17 +224,30 @@ def fast_adjacency(ra, dec, linklength):
     return indep_adjacency(ra, dec, linklength, impl_rows)[0]
 
 
+def py_lists(lab):
+    """(multgroup, firstgroup, nextgroup) of a labelling numbered in order of first appearance; unused entries 0 / -1"""
+    n = len(lab)
+    mult, first, nxt, last = [0] * n, [-1] * n, [-1] * n, {}
+    for i, g in enumerate(lab):
+        mult[g] += 1
+        if first[g] < 0:
+            first[g] = i
+        else:
+            nxt[last[g]] = i
+        last[g] = i
+    return mult, first, nxt
+
+
 def screen(c):
     """uncertified screening of a sky case: does ingroup equal a brute-force labelling?  -> True = suspicious"""
     ra, dec = typed(c)
-    kw = {}
-    if c.get('chunksize') is not None:
-        kw['chunksize'] = float(c['chunksize'])
+    ll, kw = call_args(c)
     try:
         with warnings.catch_warnings():
             warnings.simplefilter('ignore')
-            r = SG.spheregroup(ra, dec, float(c['linklength']), **kw)
-        return [int(x) for x in r[0]] != py_components(fast_adjacency(ra, dec, float(c['linklength'])), ra.size)
+            r = SG.spheregroup(ra, dec, ll, **kw)
+        lab = py_components(fast_adjacency(ra, dec, float(c['linklength'])), ra.size)
+        return [[int(x) for x in a] for a in r] != [lab] + list(py_lists(lab))
     except Exception:  # noqa: BLE001
         return True
 
@@ -239,8 +302,19 @@ def history(calls):
     the last call; caller-owned inputs are compared with copies taken before each call"""
     held = []
     out = []
+    prev = None
     for c in calls:
         ra, dec = typed(c)
+        reused = None
+        if c.get('reuse') and prev is not None:
+            # class A (round 6): the caller refills the coordinate arrays of the PREVIOUS call in place and passes the same
+            # objects again
+            reused = all(p.shape == a.shape and p.dtype == a.dtype and p.flags.writeable for p, a in zip(prev, (ra, dec)))
+            if reused:
+                prev[0][...] = ra
+                prev[1][...] = dec
+                ra, dec = prev
+        prev = (ra, dec)
         before = (ra.copy(), dec.copy())
         try:
             rows, near_impl = adjacency(ra, dec, float(c['linklength']))
@@ -248,14 +322,12 @@ def history(calls):
             rows, near_impl = [1 << i for i in range(ra.size)], None
         irows, near = indep_adjacency(ra, dec, float(c['linklength']), rows)
         r = {'adj': [str(x) for x in rows], 'adj_indep': [str(x) for x in irows], 'nearest_threshold_rel': near,
-             'nearest_threshold_rel_impl': near_impl}
-        kw = {}
-        if c.get('chunksize') is not None:
-            kw['chunksize'] = float(c['chunksize'])
+             'nearest_threshold_rel_impl': near_impl, 'reused': reused}
+        ll, kw = call_args(c)
         try:
             with warnings.catch_warnings():
                 warnings.simplefilter('ignore')
-                res = SG.spheregroup(ra, dec, float(c['linklength']), **kw)
+                res = SG.spheregroup(ra, dec, ll, **kw)
             r['immediate'] = [[int(x) for x in a] for a in res]
             held.append(res)
         except Exception as e:  # noqa: BLE001
